@@ -10,18 +10,32 @@ from spec import evaln
 from . import gen_circuits as G, logic_drv as D
 
 
+BENCH_TEXTS = ['input(a,b) output(o,p) g1=AND(a,b) g2=OR(a,b) o=XOR(g1,g2) p=NAND(a,g1)',
+               'input(a,b,c) output(o) g1=NOR(a,b) g2=AND(a,c) g3=OR(a,b,c) o=XOR(g1,g2,g3)',
+               'input(a) output(o,p,q) o=NOT(a) p=BUF(a) q=AND(a,o)',
+               'input(a,b) output(o) q=DFF(g) g=XOR(a,q) o=AND(q,b,a)']
+
+
+def bench_circuits():
+    """bench-style circuits: every port is a fork node, input ports fan out to several readers"""
+    from kyupy import bench
+    for k, t in enumerate(BENCH_TEXTS):
+        yield bench.parse(t), ('bench-style', k)
+
+
 def run_case(args):
     c = G.build(args['desc'])
-    r = check(c, args['m'], np.array(args['stim'], dtype=np.int64), args.get('line'), args.get('vals'))
+    r = check(c, args['m'], np.array(args['stim'], dtype=np.int64), args.get('line'), args.get('vals'), args.get('opts') or {}, args.get('cb_style', 'plain'))
     return {'reproduced': bool(r), 'violated': r[:4]}
 
 
-def check(c, m, stim, line=None, vals=None):
+def check(c, m, stim, line=None, vals=None, opts=None, cb_style='plain'):
+    opts = opts or {}
     out = []
     n = stim.shape[1]
     calls = []
     try:
-        sim = D.simulate(c, m, stim, {}, calls=calls)
+        sim = D.simulate(c, m, stim, opts, calls=calls, cb_style=cb_style)
     except Exception as e:  # noqa
         return [('exception', f'c_prop(inject_cb=identity) raised {e!r}')]
     ops = np.asarray(sim.ops)
@@ -41,11 +55,11 @@ def check(c, m, stim, line=None, vals=None):
     if out:
         return out
     # identity callback: same results as without
-    plain = D.simulate(c, m, stim, {})
+    plain = D.simulate(c, m, stim, opts)
     if not np.array_equal(np.asarray(plain.s[1]), np.asarray(sim.s[1])):
-        out.append(('identity', 'results with an identity callback differ from results without callback'))
-    if line is not None:
-        mism = D.compare(c, m, stim, {}, inject={line: vals})
+        out.append(('identity', f'results with an identity callback ({cb_style}) differ from results without callback'))
+    if line is not None and line in want_lines:
+        mism = D.compare(c, m, stim, opts, inject={line: vals}, cb_style=cb_style)
         if mism:
             out.append(('override', f'overwriting line {line}: {mism[0]}'))
     return out
@@ -54,18 +68,36 @@ def check(c, m, stim, line=None, vals=None):
 def part(tier, seed, ms=(2, 4, 8)):
     b = BoundedPart('C16-callback-behaviour', ['kyupy.logic_sim.LogicSim.c_prop'],
                     'shared circuit space x logics 2/4/8: identity callback (call log: lines in evaluation order, Line objects, writable views sharing memory with c) '
-                    'and one overwritten line per case (every op output line in turn for small circuits, random for larger) with random values; oracle = spec.evaln with the line overridden; '
+                    'and one overwritten line per case (every op output line in turn for small circuits, random for larger) with random values; also with strip_forks=True, with callbacks that return a status / count and with a callable that evaluates to false, on bench-style circuits (fork ports with several readers, every line) and one random line of the other circuits; oracle = spec.evaln with the line overridden; '
                     'distinct = (circuit, m, line)', f'exhaustive-small family + {60 if tier == "quick" else 1500} seeded circuits')
     cases = list(G.small_circuits())
     nrand = 60 if tier == 'quick' else 1500
     for k in range(nrand):
         rng = G.rng_for(seed + 17, k)
         cases.append((G.random_circuit(rng, n_gates=rng.randrange(1, 12), n_in=rng.randrange(1, 4), n_ff=rng.randrange(0, 2), p_unconn=0.05), ('random', seed + 17, k)))
+    cases += list(bench_circuits())
+    variants = [({}, 'plain'), ({'strip_forks': True}, 'plain'), ({}, 'returns-false'), ({}, 'falsy-callable'), ({'strip_forks': True}, 'returns-count')]
     for c, sig in cases:
         if D.has_arity_gap(c):
             continue        # arity-by-name vs arity-by-highest-pin is C01/C02's finding; keep it out of the callback oracle
         desc = G.describe(c)
         rng = random.Random(sseed(str(sig)) & 0xfffff)
+        # other simulator options / callback flavours (a callback that returns a status, a callable that evaluates to false): every line of
+        # the bench-style circuits, one random line otherwise
+        for m in ms:
+            for opts, style in variants[1:]:
+                if sig[0] not in ('bench-style', 'random', 'chain', 'special'):
+                    continue
+                n = rng.choice([1, 3, 8, 9])
+                stim = D.stimulus(rng, c, m, n)
+                lines = list(range(len(c.lines)))
+                for line in (lines if sig[0] == 'bench-style' else rng.sample(lines, 1) if lines else []):
+                    alphabet = {2: [0, 3], 4: [0, 1, 2, 3], 8: list(range(8))}[m]
+                    vals = [rng.choice(alphabet) for _ in range(n)]
+                    b.case((desc['nodes'], desc['lines'], m, line, tuple(sorted(opts.items())), style), True, sample={'circuit': str(sig), 'm': m, 'line': line, 'options': opts, 'callback': style})
+                    for clause, msg in check(c, m, stim, line, vals, opts, style):
+                        b.violation(f'bounded:C16:{clause}:m={m}', f'm={m} {sig} options {opts} callback {style}: {msg}', 'bounded.inject_drv:run_case',
+                                    {'desc': desc, 'm': m, 'stim': stim.tolist(), 'line': line, 'vals': vals, 'opts': opts, 'cb_style': style}, function='kyupy.logic_sim.LogicSim.c_prop')
         for m in ms:
             n = rng.choice([1, 3, 8, 9])
             stim = D.stimulus(rng, c, m, n)
